@@ -31,6 +31,8 @@ def generate(seed, tier, index):
     entry = C.make_script_entry(rs, ru, rk, "euler", SMALL_P if coobs else SPEC_P,
                                 {"steps": (3, 40), "isp": "auto", "p_ongrid": 0.05}, rich=rs.chance(0.85))
     scale = "species" if index % 60 == 9 else ("cells4k" if index % 240 == 17 else ("cells33k" if index % 1200 == 601 else None))
+    if scale is None and index % 30 == 4:
+        scale = "grid3d"
     if scale:
         # inputs at scales the ordinary generator never reaches (more than 32 species, thousands of cells)
         entry = C.scale_entry(rs.sub("scale"), ru, rk, "euler", scale, steps=(3, 6))
